@@ -47,6 +47,7 @@ func c06Items(name string, thorough bool) []item {
 		add(validity251())
 	case s.length == 15:
 		add(stringPlacements())
+		add(stringRuns(thorough))
 	case s.length == 0:
 		add(varStrings())
 	case s.length == 1:
